@@ -231,11 +231,14 @@ def h_pipeline(ctx, eol, source):
     else:
         topo = load_json(Path(common.EXAMPLE) / source)
         desc = dict(file=source)
+    # power mode or gain mode
+    power_mode = ctx.choice('Span power_mode', [True, False])
+    eqpt['Span']['default'].power_mode = power_mode
     # library amplifiers with or without automatic output-VOA optimisation
     auto_voa = ctx.choice('out_voa_auto of the library amplifiers', [False, True])
     for a in eqpt['Edfa'].values():
         a.out_voa_auto = auto_voa
-    desc = dict(desc, EOL=eol, out_voa_auto=auto_voa)
+    desc = dict(desc, EOL=eol, out_voa_auto=auto_voa, power_mode=power_mode)
     g = network_from_json(deepcopy(topo), eqpt)
     design(g, deepcopy(eqpt))
     j1 = _canon(network_to_json(g))
